@@ -347,6 +347,7 @@ def run(prog, chk):
     grammar_order_rule(prog, chk, disp)
     exported_function_reader_rule(prog, chk)
     redirect_fd_table_rule(prog, chk)
+    import_after_parser_options_rule(prog, chk)
     heredoc_rule(prog, chk, disp)
 
     # ---- R14.3 single printer ------------------------------------------------------------------------------
@@ -567,6 +568,8 @@ def _kind_fd_table(prog, b):
                 for st in b.blocks[x].stmts:
                     if st.kind == 'a' and st.place.is_local() and st.place.local == 0 and st.rv.kind == 'use':
                         val = const_value(b, d, st.rv.ops[0])
+                    elif st.kind == 'a' and st.place.is_local() and st.place.local == 0 and st.rv.kind == 'agg' and st.rv.variant == "Some" and st.rv.ops:
+                        val = const_value(b, d, st.rv.ops[0])       # the table returns Option<fd>
                 if val is not None:
                     out[v] = val
                     break
@@ -732,3 +735,46 @@ def redirect_fd_table_rule(prog, chk):
         else:
             chk.ok("R14.8", "fd-table@" + fn.rsplit("::", 1)[-1], "%d variants, equal to the reference" % len(tab), function=fn)
     chk.floor("R14.8", "operator → descriptor tables found", n, 1)
+
+
+def import_after_parser_options_rule(prog, chk):
+    """R14.9: functions exported by a parent shell are re-parsed while the new shell is constructed (inherit_env_vars → parse with
+    Shell::parser_options()); a body that does not parse is dropped silently. So every option field that parser_options() reads must have
+    its start-up value *before* the import runs: in the constructor no store to such a field is reachable after the call of
+    inherit_env_vars. (extglob is switched on during construction: if that happens after the import, an exported function whose body
+    contains `+(…)` / `@(…)` never arrives in the child.)"""
+    from dataflow import field_stores
+    chk.rule("R14.9", "in the shell constructor no option that parser_options() reads is set after exported functions were imported (inherit_env_vars)")
+    po = prog.impl_body("brush_core::shell::Shell::parser_options")
+    if not chk.anchor("R14.9", "brush_core::shell::Shell::parser_options", po):
+        return
+    fields = set()
+    for bl in po.blocks:
+        for st in bl.stmts:
+            if st.kind != 'a':
+                continue
+            places = [o.place for o in st.rv.ops if o.place is not None] + ([st.rv.place] if getattr(st.rv, "place", None) is not None else [])
+            for pl in places:
+                names = [p[3] for p in pl.proj if p[0] == 'f']
+                if "options" in names and names.index("options") + 1 < len(names):
+                    fields.add(names[names.index("options") + 1])
+    chk.floor("R14.9", "option fields read by parser_options", len(fields), 2)
+    IMPORT = "brush_core::wellknownvars::inherit_env_vars"
+    callers = prog.callers_of(IMPORT, crates=SHIPPED)
+    chk.floor("R14.9", "callers of inherit_env_vars", len(callers), 1)
+    for b, bb, t in callers:
+        c = cfg_of(b)
+        after = c.reachable_after(bb)
+        late = []
+        for f in sorted(fields):
+            for sb, i, st in field_stores(b, "options::RuntimeOptions", f):
+                if sb in after:
+                    late.append((f, b.blocks[sb].term.line))
+        fn = owner(b.name)
+        if late:
+            chk.fail("R14.9", fn, "parser-option-set-after-function-import:" + late[0][0],
+                     "%s sets options.%s (near line %s) after inherit_env_vars has already re-parsed the exported functions with the old value: an exported function "
+                     "whose body needs that option (extglob patterns in case items, `[[ … == +(…) ]]`) fails to parse and is silently missing in the child shell"
+                     % (fn, late[0][0], late[0][1]))
+        else:
+            chk.ok("R14.9", "options-before-import@" + fn.rsplit("::", 1)[-1], "stores to %s precede the import" % sorted(fields), function=fn)
